@@ -16,7 +16,7 @@ template <typename T, typename T2> static inline void print_vec(const T& v, T2 f
 }
 
 static inline std::string hashtype_str(int h) {
-    char buf[100];
+    char buf[100] = " "; // (a hash type that is none of the defined ones appends nothing: the result is the empty string)
     char* pbuf = buf;
     if ((h & 0x1f) == SIGHASH_ALL) pbuf += snprintf(pbuf, 100 + buf - pbuf, " SIGHASH_ALL");
     if ((h & 0x1f) == SIGHASH_NONE) pbuf += snprintf(pbuf, 100 + buf - pbuf, " SIGHASH_NONE");
